@@ -578,6 +578,28 @@ def obtain(h):
     for q, c in zip(qs, expect_caps):
         if (q.GetUnknownCaption() or "") != c:
             return {"reproduced": True, "call": "caption of %r" % q, "observed": q.GetUnknownCaption(), "expected": c}
+    # the composing-map form of a simple quantity (one entry, exponent 1) keeps the caption; this is the
+    # form pickling uses, so Scalars / FixedArrays on captioned quantities survive a pickle round trip
+    import pickle
+    from barril.units import FixedArray, Quantity
+
+    for mk in (
+        lambda: ObtainQuantity(OrderedDict([("length", ["m", 1])]), None, "Caption C"),
+        lambda: ObtainQuantity(OrderedDict([("length", ("m", 1))]), None, "Caption C"),
+        lambda: Quantity.CreateDerived(OrderedDict([("length", ["m", 1])]), unknown_unit_caption="Feeeet"),
+        lambda: ObtainQuantity(OrderedDict([("length", ["m", 2]), ("time", ["s", -1])]), None, "Caption D"),
+    ):
+        q = mk()
+        exp_cap = q.GetUnknownCaption()
+        if q is not mk():
+            return {"reproduced": True, "call": "composing-map request repeated", "observed": "a different object", "expected": "the identical object"}
+        if "Caption C" in repr(mk.__code__.co_consts) and exp_cap != "Caption C":
+            return {"reproduced": True, "call": "ObtainQuantity(OrderedDict([('length', ['m', 1])]), None, 'Caption C').GetUnknownCaption()", "observed": exp_cap, "expected": "Caption C"}
+        for obj in (Scalar(q, 2.5), FixedArray(2, q, [1.0, 2.0]), q):
+            back = pickle.loads(pickle.dumps(obj))
+            bq = back if obj is q else back.GetQuantity()
+            if not (back == obj) or (bq.GetUnknownCaption() or "") != (exp_cap or ""):
+                return {"reproduced": True, "call": "pickle.loads(pickle.dumps(%r)) with caption %r" % (obj, exp_cap), "observed": "%r with caption %r, equal=%s" % (back, bq.GetUnknownCaption(), back == obj), "expected": "an equal object with the same caption"}
     db = qs[0].GetUnitDatabase()
     if qs[7].GetCategory() != db.GetDefaultCategory("m") or qs[9].GetCategory() != db.GetDefaultCategory("bbl/ft"):
         return {"reproduced": True, "call": "ObtainQuantity('bbl/ft') after ObtainQuantity('bbl/ft', 'area')", "observed": qs[9].GetCategory(), "expected": db.GetDefaultCategory("bbl/ft")}
@@ -1406,3 +1428,161 @@ def validity(h):
             if ok_m != lim_ok:
                 return {"reproduced": True, "call": "Scalar(%r, %r, 'm').IsValid()" % (cat, v), "observed": ok_m, "expected": lim_ok}
     return {"reproduced": False}
+
+
+@probe("convert_exp")
+def convert_exp(h):
+    """C02/C06: re-expressing an amount given in a power of a unit: v [u**e] is v * (k_u/k_w)**e [w**e] for scale-only
+    units (k = base units per unit), for zero and negative amounts too; through UnitDatabase.Convert with
+    (unit, exponent) lists, Quantity.Convert of derived quantities and 1/Scalar"""
+    from barril.units import UnitDatabase, Scalar, Quantity
+
+    db = UnitDatabase.GetSingleton()
+    m = (h or {}).get("model") or {}
+    vals = [0.0, 1.0, 0.25, -6.0, 2.5]
+    mv = num(m.get("value"), None)
+    if mv is not None and mv not in vals:
+        vals.insert(0, mv)
+    exps = [-1, -2, 2, 3, -3, 1]
+    me = num(m.get("from_exp0"), None)
+    if me is not None and int(me) in exps:
+        exps.remove(int(me))
+        exps.insert(0, int(me))
+    pairs = [("volume", "galUK", "m3"), ("length", "ft", "m"), ("length", "m", "cm"), ("time", "h", "s"), ("mass", "g", "kg"), ("pressure", "psi", "Pa")]
+    for qt, u, w in pairs:
+        ku = db.Convert(qt, u, db.GetBaseUnit(qt), 1.0)
+        kw = db.Convert(qt, w, db.GetBaseUnit(qt), 1.0)
+        for e in exps:
+            for v in vals:
+                exp = v * (ku / kw) ** e
+                for desc, fn in (
+                    ("UnitDatabase.Convert(%r, [(%r, %d)], [(%r, %d)], %r)" % (qt, u, e, w, e, v), lambda: db.Convert(qt, [(u, e)], [(w, e)], v)),
+                    ("Quantity.CreateDerived({%r: [%r, %d]}).Convert(%r, [(%r, %d)])" % (qt, u, e, v, w, e), lambda: Quantity.CreateDerived({qt: [u, e]}).Convert(v, [(w, e)])),
+                ):
+                    try:
+                        got = fn()
+                    except Exception as ex:
+                        return {"reproduced": True, "call": desc, "observed": "%s: %s" % (type(ex).__name__, ex), "expected": exp}
+                    if not close(got, exp, 1e-9):
+                        return {"reproduced": True, "call": desc, "observed": got, "expected": exp}
+        # the amount built from component Scalars against the named reciprocal row, where the table has one
+        for named, target in (("1/" + u, "1/" + w),):
+            try:
+                row = Scalar(0.25, named).GetValue(target)
+            except Exception:
+                continue
+            s = 1.0 / Scalar(4.0, u)
+            got = s.GetQuantity().Convert(s.GetValue(), [(w, -1)])
+            if not close(got, row, 1e-6):
+                return {"reproduced": True, "call": "(1.0 / Scalar(4.0, %r)) re-expressed per %s" % (u, w), "observed": got, "expected": "Scalar(0.25, %r).GetValue(%r) = %r" % (named, target, row)}
+    return {"reproduced": False}
+
+
+@probe("pure_queries")
+def pure_queries(h):
+    """C15: a read-only query leaves the registry as it was and answers the same when asked again"""
+    h = h or {}
+    fillers = [h["filler"]] if h.get("filler") else ["simple", "posc"]
+
+    def canon(r):
+        if isinstance(r, (list, tuple)):
+            return [canon(x) for x in r]
+        if hasattr(r, "unit") and hasattr(r, "quantity_type"):
+            return ("UnitInfo", r.unit)
+        if hasattr(r, "category") and hasattr(r, "quantity_type"):
+            return ("CategoryInfo", r.category)
+        if hasattr(r, "__iter__") and not isinstance(r, (str, dict, set, frozenset)):
+            return [canon(x) for x in r]
+        return r
+
+    for filler in fillers:
+        db = fresh_db(filler)
+        ref = fresh_db(filler)
+        calls = []
+        if h.get("method"):
+            calls.append((h["method"], [tuple(a) if isinstance(a, list) and a and not isinstance(a[0], list) and not isinstance(a[0], str) else a for a in h.get("args", [])]))
+        q0 = "length"
+        calls += [("GetUnits", []), ("GetInfos", []), ("GetQuantityTypes", []), ("GetUnits", [q0]), ("GetInfos", [q0]), ("GetUnitNames", [q0]), ("GetBaseUnit", [q0]), ("GetInfo", [q0, "m"]), ("GetDefaultCategory", ["m"]), ("FindUnitCase", ["M"])]
+        for meth, args in calls:
+            args = [[tuple(x) for x in a] if isinstance(a, list) and a and isinstance(a[0], (list, tuple)) else a for a in args]
+            before = (_snapshot(db), _reports(db))
+            outs = []
+            for _ in range(2):
+                try:
+                    outs.append(("return", repr(canon(getattr(db, meth)(*args)))))
+                except Exception as e:
+                    outs.append(("raise", type(e).__name__))
+            call = "%s db.%s(%s)" % (filler, meth, ", ".join(repr(a) for a in args))
+            after = (_snapshot(db), _reports(db))
+            if after != before:
+                return {"reproduced": True, "call": call, "observed": "the registry reports something else after the call", "expected": "unchanged registry"}
+            if outs[0] != outs[1]:
+                return {"reproduced": True, "call": call + " twice", "observed": "%s then %s" % (outs[0][1][:300], outs[1][1][:300]), "expected": "the same answer"}
+            try:
+                fresh = ("return", repr(canon(getattr(ref, meth)(*args))))
+            except Exception as e:
+                fresh = ("raise", type(e).__name__)
+            if fresh != outs[1]:
+                return {"reproduced": True, "call": call + " on a used vs a fresh database", "observed": outs[1][1][:300], "expected": fresh[1][:300]}
+    return {"reproduced": False}
+
+
+@probe("c09_float_bounded")
+def c09_float_bounded(h):
+    """BOUNDED stand-in (not a proof): the binary operators between a Scalar / Array / FixedArray and a plain
+    number apply exactly Python's (numpy's) own float operation to the stored value(s) - bit for bit, which the
+    real-number model of the deductive check cannot see (floor division of quotients that round to an integer,
+    integers above 2**53) - and keep / invert the unit"""
+    import operator
+    import numpy
+    from barril.units import Scalar, Array, FixedArray
+
+    n = 0
+    vals = [1.0, 3.5, 0.3, 7.0, -2.5, 0.7, 1e-3, 12345.678, 4.35, 100.0]
+    ks = [0.1, 0.2, 0.3, 0.7, 2, 3, -0.1, 1.0, 1e-3, 2.5, 10, 0.05]
+    ops = [("+", operator.add), ("-", operator.sub), ("*", operator.mul), ("/", operator.truediv), ("//", operator.floordiv)]
+
+    def same(a, b):
+        return a == b or (a != a and b != b)
+
+    def check(desc, got, exp_vals, exp_unit):
+        if not hasattr(got, "GetUnit"):
+            return {"reproduced": True, "call": desc, "observed": "%r (no unit)" % (got,), "expected": "a barril object", "evaluations": n}
+        gv = got.GetValue() if isinstance(got, Scalar) else list(got.GetValues())
+        ev = exp_vals if isinstance(got, Scalar) else list(exp_vals)
+        ok = same(gv, ev) if isinstance(got, Scalar) else (len(gv) == len(ev) and all(same(float(x), float(y)) for x, y in zip(gv, ev)))
+        if not ok or (exp_unit is not None and got.GetUnit() != exp_unit):
+            return {"reproduced": True, "call": desc, "observed": "%r [%s]" % (gv, got.GetUnit()), "expected": "%r [%s]" % (ev, exp_unit), "evaluations": n}
+        return None
+
+    for k in ks:
+        for sym, op in ops:
+            for a in vals:
+                n += 2
+                r = check("Scalar(%r, 'm') %s %r" % (a, sym, k), op(Scalar(a, "m"), k), op(a, k), "m")
+                if r:
+                    return r
+                r = check("%r %s Scalar(%r, 'm')" % (k, sym, a), op(k, Scalar(a, "m")), op(k, a), "m" if sym in "+-*" else None)
+                if r:
+                    return r
+            for kind, mk in (("list", list), ("tuple", tuple), ("ndarray", numpy.array)):
+                n += 2
+                x = Array(mk(vals), "m")
+                exp = numpy.array(vals) if kind == "ndarray" else None
+                r = check("Array(%s(%r), 'm') %s %r" % (kind, vals, sym, k), op(x, k), op(exp, k) if exp is not None else [op(a, k) for a in vals], "m")
+                if r:
+                    return r
+                r = check("%r %s Array(%s(%r), 'm')" % (k, sym, kind, vals), op(k, x), op(k, exp) if exp is not None else [op(k, a) for a in vals], "m" if sym in "+-*" else None)
+                if r:
+                    return r
+            n += 1
+            fa = FixedArray(3, tuple(vals[:3]), "m")
+            r = check("FixedArray(3, %r, 'm') %s %r" % (tuple(vals[:3]), sym, k), op(fa, k), [op(a, k) for a in vals[:3]], "m")
+            if r:
+                return r
+    big = 10**17 + 1
+    n += 1
+    r = check("Array([%d], 'm') // 1" % big, Array([big], "m") // 1, [big // 1], "m")
+    if r:
+        return r
+    return {"reproduced": False, "evaluations": n}
